@@ -26,7 +26,8 @@ from . import common, gen, shtools
 RULE = ('variable lookup: random lists of global / pattern-specific (%) / target-specific := definitions over 3-4 variables and '
         '3-6 targets whose texts mix literals (blank, quote, $$, \\#) with references to variables of the pool, random DAG, '
         'random goal list (non-trivial: a value is inherited from a dependent or a pattern-specific value shields one); flag '
-        'lines: generated projects (static / shared libraries in a chain, executables, global options of each kind present or '
+        'lines: generated projects (static / shared libraries in a chain, executables, yacc sources translated by a step with two '
+        'outputs - its variables belong to the .stamp target whose recipe runs the command - or with one output, global options of each kind present or '
         'ABSENT, own options present or absent, odd characters) through the real handlers (non-trivial: a step without own values '
         'depends on or is depended on by a step with own values of the same kind)')
 TRUSTED = ('harness/c01tv.py: the parser of the variable lines of the written Makefile (NAME := text, %: NAME := text, '
@@ -187,10 +188,13 @@ def make_env(with_env_flags):
     env = Environment(abspath('/bfgdir'), 'make', None, abspath('/s r/c', directory=True), abspath('/b d', directory=True))
     env.finalize({InstallRoot.prefix: abspath('/prefix')}, (True, True), True)
     if with_env_flags:
-        env.variables.update({'CFLAGS': '-O1 -DENVC="e c"', 'LDFLAGS': "-Wl,--as-needed '-L/e n v'", 'LDLIBS': '-lm', 'CPPFLAGS': '-DCPP=a#b'})
+        env.variables.update({'CFLAGS': '-O1 -DENVC="e c"', 'LDFLAGS': "-Wl,--as-needed '-L/e n v'", 'LDLIBS': '-lm', 'CPPFLAGS': '-DCPP=a#b',
+                              'YFLAGS': "-Wenv '-DENVY=e y'"})
     else:
-        for k in ('CFLAGS', 'LDFLAGS', 'LDLIBS', 'CPPFLAGS', 'CXXFLAGS', 'ARFLAGS'):
+        for k in ('CFLAGS', 'LDFLAGS', 'LDLIBS', 'CPPFLAGS', 'CXXFLAGS', 'ARFLAGS', 'YFLAGS'):
             env.variables.pop(k, None)
+    # yacc / bison do not exist here: the stand-in answers the version probe of the tool detection
+    env.variables['YACC'] = os.path.join(common.VERIF, 'harness', 'stubs', 'yacc')
     return env
 
 
@@ -218,6 +222,19 @@ def gen_project(rng, ctx, fixed=False):
         ctx['global_link_options'](lopt() or ['-Wl,-g'])
     libs = []
     name = lambda stem: rng.choice(['', '', 'sub/']) + stem + (rng.choice([' ', "'", '$', '+']) + 'n' if rng.random() < 0.25 else '')
+    # steps of a language that is translated first (yacc): with TWO outputs (translation unit + header: the Make backend runs
+    # the command in the recipe of a .stamp target, which is where the step's variables belong) and with one named output;
+    # own options present or absent, global options of that language present or absent
+    gen = []
+    if rng.random() < 0.6:
+        yopt = lambda: rep_words([rng.choice(['-D', '-W', '--report=']) + word() for _ in range(rng.choice([0, 1, 2]))], '-D')
+        if rng.random() < 0.4:
+            ctx['global_options'](yopt() or ['-Wyg'], lang='yacc')
+        for k in range(rng.randint(1, 2)):
+            if rng.random() < 0.7:
+                gen.append(ctx['generated_source'](file=name('gram%d' % k) + '.y', options=yopt())[0])
+            else:
+                gen.append(ctx['generated_source'](name('one%d' % k) + '.c', 'single%d.y' % k, options=yopt()))
     for k in range(rng.randint(1, 3)):
         use = rng.sample(libs, rng.randint(0, len(libs)))
         kind = rng.choice(['shared_library', 'shared_library', 'static_library'])
@@ -229,7 +246,7 @@ def gen_project(rng, ctx, fixed=False):
                 kw['soversion'] = '1'
         libs.append(ctx[kind](name('lib%d' % k), **kw))
     for k in range(rng.randint(1, 2)):
-        ctx['executable'](name('prog%d' % k), files=['main%d.c' % k], libs=rng.sample(libs, rng.randint(0, len(libs))),
+        ctx['executable'](name('prog%d' % k), files=['main%d.c' % k] + (gen if k == 0 else []), libs=rng.sample(libs, rng.randint(0, len(libs))),
                           compile_options=copt(), link_options=lopt())
 
 
@@ -280,8 +297,10 @@ def parse_var_lines(text):
             continue
         m = re.match(r'^((?:[^\\:#=\t]|\\.)+?): ([A-Za-z0-9_]+) := (.*)$', line)
         if m and ' := ' not in m.group(1):
-            tgt = UNESC.sub(lambda k: k.group(1), m.group(1)).replace('$$', '$')
-            out.append(([2, tgt], m.group(2), m.group(3), line))
+            # several targets on one line (separated by unescaped blanks): the definition holds for each of them
+            for one in re.findall(r'(?:[^\\ ]|\\.)+', m.group(1)):
+                tgt = UNESC.sub(lambda k: k.group(1), one).replace('$$', '$')
+                out.append(([2, tgt], m.group(2), m.group(3), line))
     return out
 
 
